@@ -342,6 +342,19 @@ func c02Body(r *vlib.Run) int {
 	for i := 0; i < n; i++ {
 		cases = append(cases, c02Gen(rng, i, dir))
 	}
+	// consumers that are far behind when the server has long finished: output
+	// that fits into the transport's window (2 MiB), consumer stalled 13-16 s
+	nLong := r.N(3, 24)
+	for k := 0; k < nLong; k++ {
+		c := &c02Case{Mode: "cat", SSH: true, Limit: 2, PipeSize: 4096,
+			Pace: pacing{Kind: "stall", StallAt: int64(30000 + 7919*k), StallS: 13 + float64(k%4)}}
+		d := filepath.Join(dir, fmt.Sprintf("long%d", k))
+		os.MkdirAll(d, 0755)
+		p := filepath.Join(d, "f00.log")
+		c02WriteFile(p, 0, 9000+500*k)
+		c.Files = []c02File{{ID: 0, Lines: 9000 + 500*k, Path: p}}
+		cases = append([]*c02Case{c}, cases...)
+	}
 	if len(pool) == 0 {
 		for _, c := range cases {
 			c.SSH = false
